@@ -111,6 +111,15 @@ def to_numpy(ctx, tk):
             check_guard(ctx, "C01.c", f, [r], Formulas([m1, m2]), lambda A: A[E1], [E1, G1, L1, E2, G2, L2],
                         "the empty-matrix shortcut is taken only when the array has no rows", fa=fa, constraints=c1 + c2 + [("or", [("not", ("atom", E1)), ("atom", E2)])],
                         describe="an array consisting of empty rows loses its row count and dtype")
+    # arrays created for the result carry the array's element type
+    for r in fa.cfg.returns():
+        tm = fa.term(r.ast.value, r)
+        nm = np_call_(tm, {"empty", "zeros", "ones", "full"})
+        if nm:
+            dt = dict(tm.a[2]).get("dtype")
+            ok = dt is not None and any(y.k == "attr" and y.a[1] == "dtype" for y in walk(dt))
+            ctx.decide("C01.c", f, "a freshly allocated result has the array's element type", True if ok else (False if dt is None else None),
+                       "`%s` has numpy's default dtype float64 whatever the array's dtype" % (tm,), node=r.ast, key="alloc-dtype", engine="E6")
     # reshape(R, C): first extent is the row count, second the common length
     for n, c in find_calls(fa, lambda c: c.a[0].k == "attr" and c.a[0].a[1] == "reshape"):
         args = c.a[1]
